@@ -684,10 +684,29 @@ let run_scn toks =
     Stdlib.String.concat ";" (Stdlib.List.map (fun (k, v) -> string_of_n k ^ ":" ^ string_of_n v) !w.Scan.w_out)
   | _ -> failwith "bad scan case"
 
+(* abuf <capacity> L<n> C ... (Model.AlignedBuf) -> cap=<c> counter=+<alloc> <ok|panic>:<len> ... after-drop=+0 *)
+let run_abuf toks =
+  match toks with
+  | capacity :: ops ->
+    let b = ref (AlignedBuf.ab_new (n_of_string capacity)) in
+    let buf = Stdlib.Buffer.create 64 in
+    Stdlib.Buffer.add_string buf ("cap=" ^ string_of_n !b.AlignedBuf.ab_cap ^ " counter=+" ^ string_of_n !b.AlignedBuf.ab_alloc);
+    Stdlib.List.iter (fun t ->
+        let op = match t.[0] with
+          | 'C' -> AlignedBuf.AClear
+          | 'L' -> AlignedBuf.ASetLen (n_of_string (Stdlib.String.sub t 1 (Stdlib.String.length t - 1)))
+          | _ -> failwith ("bad abuf op " ^ t) in
+        let (b', o) = AlignedBuf.ab_step !b op in
+        b := b';
+        Stdlib.Buffer.add_string buf ((match o with AlignedBuf.AOk -> " ok" | AlignedBuf.APanic -> " panic") ^ ":" ^ string_of_n !b.AlignedBuf.ab_len)) ops;
+    Stdlib.Buffer.add_string buf " after-drop=+0";
+    Stdlib.Buffer.contents buf
+  | _ -> failwith "bad abuf case"
+
 let run_note _ = "note"
 
 let handlers : (string * (string list -> string)) list ref =
-  ref [ ("fs", run_fs); ("open", run_open); ("note", run_note); ("codec", run_codec); ("readdev", run_readdev); ("lww", run_lww); ("monitor", run_monitor); ("cache", run_cache); ("migrate", run_migrate); ("conc", run_conc); ("hist", run_hist); ("pins", run_pins); ("inflight", run_inflight); ("swp", run_swp); ("scn", run_scn) ]
+  ref [ ("fs", run_fs); ("open", run_open); ("note", run_note); ("codec", run_codec); ("readdev", run_readdev); ("lww", run_lww); ("monitor", run_monitor); ("cache", run_cache); ("migrate", run_migrate); ("conc", run_conc); ("hist", run_hist); ("pins", run_pins); ("inflight", run_inflight); ("swp", run_swp); ("scn", run_scn); ("abuf", run_abuf) ]
 
 
 let () =
